@@ -1,5 +1,6 @@
 import ComposeVerif.Ops.Common
 import ComposeVerif.Model.Secrets
+import ComposeVerif.Model.SecretsBytes
 /-! line-protocol ops for C20: the path of a secret / config value taken from the environment -/
 open Lean
 namespace CV.Ops.C20
@@ -116,8 +117,14 @@ def flowOp : Handler := fun args =>
         ("yaml0", (render .yaml false p).toJson), ("yaml1", (render .yaml true p).toJson),
         ("json0", (render .json false p).toJson), ("json1", (render .json true p).toJson)])]
 
+/-- `json.MarshalIndent(v, "", "  ")` -/
+def jsonBytes : Handler := fun args =>
+  match getVal args "v" with
+  | .error e => bad e
+  | .ok v => Json.mkObj [("ok", Json.str (String.ofList (CV.Bytes.jsonRender 0 v)))]
+
 def handlers : List (String × Handler) :=
   [("c20.resolve", resolve), ("c20.setName", setName), ("c20.procExt", procExt), ("c20.decode", decode),
-   ("c20.marshal", marshal), ("c20.apply", apply), ("c20.flow", flowOp)]
+   ("c20.marshal", marshal), ("c20.apply", apply), ("c20.flow", flowOp), ("c20.jsonBytes", jsonBytes)]
 
 end CV.Ops.C20
